@@ -181,7 +181,7 @@ def run_threaded(ctx, case):
 
 # ---- (c) the same threaded programs under the deterministic scheduler (line granularity in tape_recorder.py)
 
-def run_scheduled(ctx, case):
+def run_scheduled(ctx, case, extra_check=None):
     from pbt import detsched as DS
     from playback.tape_recorder import TapeRecorder
     from pbt import zoo
@@ -250,6 +250,12 @@ def run_scheduled(ctx, case):
         created = [e for e in cas.spy_log if e[0] == 'create']
         fin = [e for e in cas.spy_log if e[0] in ('save', 'abort')]
         ctx.count('scheduled:finalisations=%d' % len(fin))
+        if extra_check is not None:
+            try:
+                extra_check(list(cas.spy_log))
+            except Violation as v:
+                v.case = dict(case, sched={'mode': 'trace', 'trace': list(sched.trace)})
+                raise
         PS.forget_class(cls)
     finally:
         DS.install(None)
